@@ -25,7 +25,7 @@ class SPEC:
             "inserted at any position: bad version, truncated variable-length record, unknown template id, undecodable template, "
             "length field 0..19; or a length field that disagrees with the message size) with EVERY single cut point, and for a "
             "subset of the streams EVERY pair of cut points, enumerated exhaustively; (b) long streams (8-40 messages, up to "
-            "several KB each, some larger than the 4096-byte bufio buffer) with random multi-cuts: 1-byte dribble, cuts at message "
+            "several KB each, some larger than the 4096-byte bufio buffer, a few of 32..64 KB) with random multi-cuts: 1-byte dribble, cuts at message "
             "boundaries +-1, few big coalesced segments, whole stream in one segment, end-of-stream in the middle of a message; "
             "(c) two or three interleaved connections of one collecting process (own or shared observation domain), one of them "
             "carrying an invalid message. The collector is created with TemplateTTL = 1 s (legal on a TCP collector, without effect there) "
@@ -184,7 +184,9 @@ def long_stream(rng, dom=None, bad=False, shared=None, nmsgs=None):
             tid = rng.choice(list(tpls))
             ies = tpls[tid]
             r = rng.random()
-            if r < 0.08:
+            if r < 0.012:
+                nrec, maxlen = rng.randint(200, 400), 400   # tens of KB, up to the 65535-octet limit: larger than any reader buffer
+            elif r < 0.08:
                 nrec, maxlen = rng.randint(20, 40), 300     # several KB: larger than the bufio buffer
             elif r < 0.3:
                 nrec, maxlen = rng.randint(3, 12), 60
@@ -198,7 +200,7 @@ def long_stream(rng, dom=None, bad=False, shared=None, nmsgs=None):
                 body += rec
             msgs.append(W.message(dom, tid, body, seq=seq))
             seq += nrec
-    STATS.add("long-stream:largest-message:" + ("<=512" if max(map(len, msgs)) <= 512 else "<=4096" if max(map(len, msgs)) <= 4096 else ">4096 (bufio buffer)"))
+    STATS.add("long-stream:largest-message:" + ("<=512" if max(map(len, msgs)) <= 512 else "<=4096" if max(map(len, msgs)) <= 4096 else ">4096 (bufio buffer)" if max(map(len, msgs)) <= 32768 else ">32768"))
     STATS.add("long-stream:bytes:" + ("<4K" if sum(map(len, msgs)) < 4096 else "<32K" if sum(map(len, msgs)) < 32768 else ">=32K"))
     return Stream(msgs, mode, "long-bad:%s" % bad_kind if bad else "long", bad_kind)
 
